@@ -30,6 +30,8 @@ type Opt struct {
 	Required string   `json:"required"` // yes | no | cond
 	OneOf    []string `json:"oneof,omitempty"`
 	Range    []*int   `json:"range,omitempty"` // [gte, lte]
+	Sub      []Opt    `json:"sub,omitempty"`   // options of a nested struct (or of the elements of a slice of structs)
+	SubElem  bool     `json:"sub_elem,omitempty"`
 }
 
 type Mech struct {
@@ -55,11 +57,12 @@ type pkgInfo struct {
 	consts map[string]string
 	funcs  map[string]*ast.FuncDecl
 	types  map[string]*ast.StructType
+	timps  map[string]map[string]string // imports of the file that declares a type
 }
 
 func parseDir(dir string) (*pkgInfo, error) {
 	p := &pkgInfo{fset: token.NewFileSet(), files: map[string]*ast.File{}, consts: map[string]string{},
-		funcs: map[string]*ast.FuncDecl{}, types: map[string]*ast.StructType{}}
+		funcs: map[string]*ast.FuncDecl{}, types: map[string]*ast.StructType{}, timps: map[string]map[string]string{}}
 
 	ents, err := os.ReadDir(dir)
 	if err != nil {
@@ -105,6 +108,7 @@ func parseDir(dir string) (*pkgInfo, error) {
 					case *ast.TypeSpec:
 						if st, ok := sp.Type.(*ast.StructType); ok {
 							p.types[sp.Name.Name] = st
+							p.timps[sp.Name.Name] = importsOf(f)
 						}
 					}
 				}
@@ -168,7 +172,7 @@ func structOpts(st *ast.StructType, self *pkgInfo, all map[string]*pkgInfo, impo
 					if pi := all[imports[x.Name]]; pi != nil {
 						inner = pi.types[t.Sel.Name]
 						if inner != nil {
-							out = append(out, structOpts(inner, pi, all, nil, depth+1)...)
+							out = append(out, structOpts(inner, pi, all, pi.timps[t.Sel.Name], depth+1)...)
 							inner = nil
 						}
 					}
@@ -217,10 +221,89 @@ func structOpts(st *ast.StructType, self *pkgInfo, all map[string]*pkgInfo, impo
 			}
 		}
 
+		if depth < 3 {
+			o.Sub, o.SubElem = nestedOpts(f.Type, self, all, imports, depth)
+
+			// validate:"-" switches the validation of the nested struct off
+			if val == "-" {
+				o.Sub = unrequire(o.Sub)
+			}
+		}
+
 		out = append(out, o)
 	}
 
 	return out
+}
+
+func unrequire(os []Opt) []Opt {
+	out := make([]Opt, len(os))
+
+	for i, o := range os {
+		o.Required, o.OneOf, o.Range = "no", nil, nil
+		o.Sub = unrequire(o.Sub)
+		out[i] = o
+	}
+
+	return out
+}
+
+// nestedOpts resolves a field type to a struct of the repository (through pointers, and
+// through one slice level) and lists its options.
+func nestedOpts(t ast.Expr, self *pkgInfo, all map[string]*pkgInfo, imports map[string]string, depth int) ([]Opt, bool) {
+	elem := false
+
+	for {
+		switch tt := t.(type) {
+		case *ast.StarExpr:
+			t = tt.X
+
+			continue
+		case *ast.ArrayType:
+			if elem {
+				return nil, false
+			}
+
+			elem = true
+			t = tt.Elt
+
+			continue
+		}
+
+		break
+	}
+
+	var (
+		st  *ast.StructType
+		pi  *pkgInfo
+		imp map[string]string
+	)
+
+	switch tt := t.(type) {
+	case *ast.Ident:
+		if self != nil {
+			st, pi, imp = self.types[tt.Name], self, self.timps[tt.Name]
+		}
+	case *ast.SelectorExpr:
+		if x, ok := tt.X.(*ast.Ident); ok {
+			if p := all[imports[x.Name]]; p != nil {
+				st, pi, imp = p.types[tt.Sel.Name], p, p.timps[tt.Sel.Name]
+			}
+		}
+	}
+
+	if st == nil {
+		return nil, false
+	}
+
+	sub := structOpts(st, pi, all, imp, depth+1)
+	if len(sub) == 0 {
+		return nil, false
+	}
+
+	sort.Slice(sub, func(i, j int) bool { return sub[i].Name < sub[j].Name })
+
+	return sub, elem
 }
 
 func importsOf(f *ast.File) map[string]string {
